@@ -820,7 +820,7 @@ func (e *Engine) execInstr(fr *Frame, st *State, reach Term, in ssa.Instruction)
 		fr.vals[x] = e.makeInterface(st, reach, e.valueOf(fr, st, x.X), x.Type())
 	case *ssa.ChangeInterface:
 		v := e.valueOf(fr, st, x.X)
-		fr.vals[x] = Val{T: x.Type(), L: v.L}
+		fr.vals[x] = Val{T: x.Type(), L: v.L, Dyn: v.Dyn}
 	case *ssa.ChangeType:
 		v := e.valueOf(fr, st, x.X)
 		v.T = x.Type()
@@ -1201,7 +1201,7 @@ func (e *Engine) makeInterface(st *State, reach Term, v Val, it types.Type) Val 
 		e.store(st, &Addr{Kind: aHeap, Ref: r, Root: v.T, T: v.T}, e.storable(st, reach, v, v.T))
 		ref = r
 	}
-	out := Val{T: it, L: []Term{IntLit(int64(tag)), ref}}
+	out := Val{T: it, L: []Term{IntLit(int64(tag)), ref}, Dyn: v.T}
 	if v.Clo != nil {
 		out.Clo = v.Clo
 	}
